@@ -192,19 +192,22 @@ def ob_row_only_operator(dims, perm, inv, cols):
     return Obligation("permute.row_only_is_left_multiplication", cfg, build, call, oracle)
 
 
-def ob_swap(dr, dc, sys, form, row_only=False):
+def ob_swap(dr, dc, sys, form, row_only=False, sys_form="list"):
     cfg = {"dims_r": list(dr), "dims_c": list(dc), "sys": list(sys), "dim_form": form, "row_only": row_only}
+    if sys_form != "list":
+        cfg["sys_form"] = sys_form
     n = len(dr)
 
     def build(b):
         return {"X": b.array("X", (prod(dr), prod(dc)), "e")}
 
     def call(i):
+        sy = list(sys) if sys_form == "list" else np.array(sys)      # an integer ndarray must come back unchanged (argument guard)
         if form == "omitted":
-            return swap(i["X"], list(sys), None, row_only)
+            return swap(i["X"], sy, None, row_only)
         if form == "int":
-            return swap(i["X"], list(sys), int(dr[0]), row_only)
-        return swap(i["X"], list(sys), dim_arg(form, dr, dc), row_only)
+            return swap(i["X"], sy, int(dr[0]), row_only)
+        return swap(i["X"], sy, dim_arg(form, dr, dc), row_only)
 
     def oracle(i):
         perm = list(range(n))
@@ -378,6 +381,8 @@ def obligations(tier):
         for dr in all_dims(n, vals, 2, 18):
             for sys in itertools.permutations(range(1, n + 1), 2):
                 obs.append(ob_swap(dr, dr, sys, "flat"))
+                if n == 3 or T:
+                    obs.append(ob_swap(dr, dr, sys, "flat", sys_form="array"))
                 dc = tuple(reversed(dr))
                 if dc != dr:
                     obs.append(ob_swap(dr, dc, sys, "2row"))
